@@ -34,8 +34,8 @@ ASSUMPTIONS = [
     "coarser/finer means all axes coarsened resp. refined by integer factors (no mixed directions in one call)",
 ]
 FLOORS = {
-    "quick": {"payload_rank_drop": 150, "integral_matches_model": 3000, "history_independent": 800, "linearity": 250, "normalize_equalises": 250, "offline:same_call_same_result": 2000},
-    "thorough": {"payload_rank_drop": 1500, "integral_matches_model": 30000, "history_independent": 8000, "linearity": 2500, "normalize_equalises": 2500, "offline:same_call_same_result": 20000},
+    "quick": {"normalize_float32_images": 100, "payload_rank_drop": 150, "integral_matches_model": 3000, "history_independent": 800, "linearity": 250, "normalize_equalises": 250, "offline:same_call_same_result": 2000},
+    "thorough": {"normalize_float32_images": 1000, "payload_rank_drop": 1500, "integral_matches_model": 30000, "history_independent": 8000, "linearity": 2500, "normalize_equalises": 2500, "offline:same_call_same_result": 20000},
 }
 LETTERS = ["native", "coarser", "finer", "other"]
 
@@ -329,18 +329,21 @@ def run_shard(spec_, R):
                               series=desc["payload"].startswith("series"))
                     if desc["payload"].startswith("series"):
                         kw["time"] = [0.0, 1.0, 2.0, 3.0]
-                    im = darsia.Image(np.abs(x) + 0.5, **kw)
+                    f32 = si % 2 == 1  # single-precision images every second time
+                    im = darsia.Image((np.abs(x) + 0.5).astype(np.float32 if f32 else np.float64), **kw)
                     kw2 = dict(kw)
                     kw2["dimensions"] = list(kw["dimensions"])
                     if desc["payload"].startswith("series"):
                         kw2["time"] = [0.0, 1.0, 2.0, 3.0]
-                    ref = darsia.Image(np.abs(y) + 0.5, **kw2)
+                    ref = darsia.Image((np.abs(y) + 0.5).astype(np.float32 if f32 else np.float64), **kw2)
+                    if f32:
+                        R.count("normalize_float32_images")
                     ok, nrm = R.guarded("normalize", lambda: g3.normalize(im, ref), key=lambda e, w: key)
                     if ok:
                         ok, pair = R.guarded("integrate", lambda: (g3.integrate(nrm), g3.integrate(ref)), key=lambda e, w: key)
                         if ok:
                             p0, p1 = np.asarray(pair[0], float), np.asarray(pair[1], float)
-                            R.check(bool(np.all(np.abs(p0 - p1) <= 1e-12 * np.abs(p1))), "normalize_equalises",
+                            R.check(bool(np.all(np.abs(p0 - p1) <= (1e-5 if f32 else 1e-12) * np.abs(p1))), "normalize_equalises",
                                     lambda: {**case, "normalised": p0.tolist() if p0.size < 5 else "array", "reference": p1.tolist() if p1.size < 5 else "array"}, group=grp)
 
     # ---------------------------------------------------------- offline checker
